@@ -117,5 +117,10 @@ SubstSound == ph = 1 => \A i \in 1..Len(E) : \A b \in SubAlpha :
 TakesOrdered == ph = 1 => LET r == Dec(sh, E, 0) IN
     \A i \in 1..Len(r.tk) : /\ r.tk[i].at + r.tk[i].n <= r.pos
                             /\ i > 1 => r.tk[i-1].at + r.tk[i-1].n <= r.tk[i].at
+\* the UTF-8 encoder used by the char-domain trace agrees with the well-formedness table on boundary and strided code points
+CpSample == (0..2304) \cup (55040..57600) \cup (65280..65792) \cup (1113856..1114112) \cup {997 * k : k \in 0..1117}
+Utf8Model == (ph = 0 /\ sh = K("bool")) =>
+   \A cp \in CpSample : /\ (IsScalar(cp) => (OneScalar(Utf8Enc(cp)) /\ Utf8Valid(Utf8Enc(cp)) /\ Len(Utf8Enc(cp)) = (IF cp < 128 THEN 1 ELSE IF cp < 2048 THEN 2 ELSE IF cp < 65536 THEN 3 ELSE 4)))
+                          /\ ((~IsScalar(cp) /\ cp < 1114112) => ~Utf8Valid(Utf8Enc(cp)))          \* surrogates are not encodable
 Vec == (Emit /\ ph = 1) => PrintT(<<"VEC", ToJson([shape |-> sh, value |-> val, encs |-> SetToSeq(AllEnc(sh, val) \ {E})])>>)
 =============================================================================
